@@ -368,3 +368,20 @@ def iterEvents (p : Prog) (n : Nat) : List Ev :=
   (List.range p.stages.length).flatMap fun k => stageEvents p k n
 
 end SnaxVerif.Pipeline
+
+namespace SnaxVerif.Pipeline
+
+/-- a module with several loops: the pattern objects of the three passes visit one loop after the other and keep no state
+from one loop to the next, so the module is transformed loop by loop (the first loop that makes a pass raise makes the
+run raise) -/
+def runModule : List Loop → Except Err (List Outcome)
+  | [] => .ok []
+  | l :: ls =>
+    match run l with
+    | .error e => .error e
+    | .ok o =>
+      match runModule ls with
+      | .error e => .error e
+      | .ok os => .ok (o :: os)
+
+end SnaxVerif.Pipeline
